@@ -242,6 +242,7 @@ type instSummary struct {
 	Wall         float64           `json:"wall_s"`
 	Covers       []string          `json:"covers_reached,omitempty"`
 	Sample       map[string]uint64 `json:"sample_path_inputs,omitempty"`
+	SampleTotal  int               `json:"sample_path_inputs_total,omitempty"`
 	Verdict      string            `json:"verdict"`
 	Inconclusive []string          `json:"inconclusive,omitempty"`
 }
@@ -344,6 +345,20 @@ func cmdCheck(args []string) int {
 		v := r.Verdict()
 		s := instSummary{Name: in.Name, Oblig: in.Oblig, Config: in.Config, Paths: r.Paths, Infeasible: r.Infeasible, Steps: r.Steps,
 			Merges: r.Merges, Forks: r.Forks, VCs: r.VCs, Trivial: r.TrivialVCs, FeasQ: r.FeasQueries, SolverSecs: r.SolverSecs, Wall: r.Wall, Sample: r.SamplePath}
+		if len(s.Sample) > 24 {
+			// evidence files stay small: keep the 24 first inputs (by name) and say how many there were
+			keys := make([]string, 0, len(s.Sample))
+			for k := range s.Sample {
+				keys = append(keys, k)
+			}
+			sort.Strings(keys)
+			cut := map[string]uint64{}
+			for _, k := range keys[:24] {
+				cut[k] = s.Sample[k]
+			}
+			s.SampleTotal = len(s.Sample)
+			s.Sample = cut
+		}
 		for c := range r.CoverHit {
 			s.Covers = append(s.Covers, c)
 		}
